@@ -68,7 +68,9 @@ def c02(tier):
     t0 = time.time()
     s = seed()
     q = tier == "quick"
-    cases = (mk("rpc", 700 if q else 30000, s, "default", n_ops=45) + mk("rpc", 200 if q else 10000, s + 1, "tiny", n_ops=45))
+    cases = (mk("rpc", 700 if q else 30000, s, "default", n_ops=45) + mk("rpc", 200 if q else 10000, s + 1, "tiny", n_ops=45)
+             # "every reachable daemon state" includes states in which deliveries to other peers fail
+             + mk("faulty", 300 if q else 8000, s + 2, "smallbuf", n_ops=70, weights=dict(route=30, reply=12, change=25, advance=6)))
     res = run_cases(cases)
     return report("C02", "exploration", res,
                   "grammar-generated JSON-RPC requests (all 12 methods + unknown, params valid / missing / mistyped / hostile, ids of every JSON type incl. "
@@ -87,7 +89,9 @@ def c03(tier):
     w = dict(add=10, remove=3, change=2, fetch=2, unfetch=1, get=1, route=30, reply=24, advance=6, connect=3, disconnect=5, misc=1)
     cases = (mk("bus", 500 if q else 14000, s, "default", n_ops=80, opts=dict(weights=w, hostile_owner=0.15))
              + mk("bus", 400 if q else 12000, s + 1, "tiny", n_ops=80, opts=dict(weights=w, hostile_owner=0.15))
-             + mk("bus", 100 if q else 4000, s + 2, "default", n_ops=300, opts=dict(weights=dict(w, reply=6, advance=1), n_peers=(3, 5), p_settle=0.3)))
+             + mk("bus", 100 if q else 4000, s + 2, "default", n_ops=300, opts=dict(weights=dict(w, reply=6, advance=1), n_peers=(3, 5), p_settle=0.3))
+             # owners / bystanders that stop reading or fail while requests are routed
+             + mk("faulty", 250 if q else 8000, s + 3, "smallbuf", n_ops=70, weights=dict(route=34, reply=16, change=20, advance=6, fault=5)))
     res = run_cases(cases)
     return report("C03", "exploration", res,
                   "random histories of set/call from several callers to several owners with owner replies (result, error, forged id, duplicated), clock advances up "
@@ -242,14 +246,15 @@ def c07(tier):
              + mk("reclaim", 200 if q else 6000, s + 3, "default", mode="inject", n_ops=50)
              + mk("reclaim", 100 if q else 3000, s + 4, "tiny", mode="inject", n_ops=50)
              + (mk("reclaim", 100 if q else 3000, s + 5, "lowheap", mode="lowheap", n_ops=120) if LOWHEAP_IN_C07 else [])
-             + mk("hostile", 150 if q else 5000, s + 6, "default", n_ops=40, baseline=True))
+             + mk("hostile", 150 if q else 5000, s + 6, "default", n_ops=40, baseline=True)
+             + mk("faulty", 150 if q else 5000, s + 9, "smallbuf", n_ops=70, weights=dict(route=30, reply=10, fault=6)))
     mid = mk("reclaim", 250 if q else 8000, s + 7, "default", mode="bus", n_ops=60) + mk("reclaim", 100 if q else 3000, s + 8, "default", mode="hostile", n_ops=40)
     for i, c in enumerate(mid):
         c["params"] = dict(c["params"], sigterm_mid=(c["seed"] * 7 + i) % 45)
     res = run_cases(cases + mid)
     return report("C07", "exploration", res,
                   "random bus histories, hostile sessions incl. half-open HTTP upgrades, injected failures of timerfd_create / timerfd_settime / epoll_ctl / fcntl / "
-                  "setsockopt / getsockname, a 256 KiB heap cap (64 KiB above the idle daemon) reached by ordinary adds; afterwards either all connections are closed and heap / peers / "
+                  "setsockopt / getsockname, peers that stop reading or whose sockets fail while requests are routed to them, a 256 KiB heap cap (64 KiB above the idle daemon) reached by ordinary adds; afterwards either all connections are closed and heap / peers / "
                   "descriptors / timers / epoll registrations are compared with the idle baseline, or SIGTERM is delivered at a seeded step (exit status 0, "
                   "accounted heap 0, no descriptor open, LeakSanitizer silent); during every run: descriptor-hygiene monitor of the simulated kernel (descriptors "
                   "are never reused, so double close / use after close / foreign descriptors are always visible) and the heap-cap assertion in the allocation tap; "
